@@ -18,6 +18,9 @@ def script? (v : Val) : Option Script := do
   | .list [n, l, d, f, noms] =>
     pure { n := ← n.nat?, learning := ← l.bools?, doneAt := ← d.nats?, finishAt := ← f.nat?,
            noms := ← (← noms.list?).mapM Val.nats? }
+  | .list [n, l, d, f, noms, u] =>
+    pure { n := ← n.nat?, learning := ← l.bools?, doneAt := ← d.nats?, finishAt := ← f.nat?,
+           noms := ← (← noms.list?).mapM Val.nats?, undoneAt := ← u.nats? }
   | _ => none
 
 def op? (v : Val) : Option (Op Int) := do
